@@ -50,8 +50,9 @@ class ProgressStore(object):
     Reads and stores seed progresses to a file.
     """
 
-    def __init__(self, filename=None, continue_seed=True):
+    def __init__(self, filename=None, continue_seed=True, read_only=False):
         self.filename = filename
+        self.read_only = read_only
         if continue_seed:
             self.status = self.load()
         else:
@@ -75,6 +76,8 @@ class ProgressStore(object):
         return {}
 
     def write(self):
+        if self.read_only:
+            return
         try:
             write_atomic(self.filename, pickle.dumps(self.status))
         except (IOError, OSError) as ex:
@@ -82,6 +85,8 @@ class ProgressStore(object):
 
     def remove(self):
         self.status = {}
+        if self.read_only:
+            return
         if os.path.exists(self.filename):
             os.remove(self.filename)
 
